@@ -106,7 +106,7 @@ STEPS = [timedelta(days=d) for d in (64, 32, 16, 8, 4, 2, 1)] + [timedelta(hours
                                                                    timedelta(seconds=5), timedelta(seconds=1)]
 
 
-def predict_observances(provider, segs, first, last, exact=False):
+def predict_observances(provider, segs, first, last, exact=False, start_utc=None, end_utc=None):
     """The generator's documented algorithm re-implemented on the ground-truth segments (no tz library involved):
     starting at the window start it repeatedly looks for the last moment with the current utcoffset by stepping forward with
     decreasing step sizes (64 days ... 1 second) - which (a) writes the onset of the next observance as the wall clock of
@@ -139,9 +139,21 @@ def predict_observances(provider, segs, first, last, exact=False):
     lo = datetime(first.year, first.month, first.day)
     hi = datetime(last.year, last.month, last.day)
     # positions are instants (pytz) or wall clocks (zoneinfo)
+    first_cur = None
     if absolute:
-        pos = lo - timedelta(seconds=seg_of_wall(lo)[1])
-        hi_pos = hi - timedelta(seconds=seg_of_wall(hi)[1])
+        # where the window starts / ends as an instant is the PROVIDER's decision (pytz.localize: in a fold between two
+        # non-DST offsets it takes the later occurrence, in a gap it keeps the earlier offset un-normalised): given by
+        # the caller; the offset attached to the start is wall - instant
+        pos = start_utc if start_utc is not None else lo - timedelta(seconds=seg_of_wall(lo)[1])
+        hi_pos = end_utc if end_utc is not None else hi - timedelta(seconds=seg_of_wall(hi)[1])
+        if start_utc is not None:
+            attached = int((lo - start_utc).total_seconds())
+            here = seg_of_instant(start_utc)
+            if here[1] == attached:
+                first_cur = here
+            else:
+                i = max(bisect.bisect_right(starts, start_utc) - 1, 0)
+                first_cur = next((sg for sg in (segs[max(i - 1, 0)], segs[min(i + 1, len(segs) - 1)]) if sg[1] == attached), seg_of_wall(lo))
         info = seg_of_instant
         wall = lambda p: p + timedelta(seconds=seg_of_instant(p)[1])  # noqa: E731
     else:
@@ -156,7 +168,7 @@ def predict_observances(provider, segs, first, last, exact=False):
         cur = info(pos)
         if absolute and guard == 1:
             # pytz: the window start is localised without normalising; inside a gap it keeps the offset before the gap
-            cur = seg_of_wall(lo)
+            cur = first_cur if first_cur is not None else seg_of_wall(lo)
         off = cur[1]
         if exact:
             # perfect detection: next ground-truth change of the utcoffset after pos
@@ -267,7 +279,7 @@ def run_case(case):
         fails.append(fail("not-well-formed", case, "TZID, observances with DTSTART/TZOFFSETFROM/TZOFFSETTO/TZNAME, onsets in window", problems[:4]))
         return {"state": ("malformed", key), "trans": 1, "nontrivial": True, "outcome": "malformed", "fails": fails}
     pts = eval_points(segs, obs, lo_utc, hi_utc)
-    pred = predict_observances(provider, segs, first, last)
+    pred = predict_observances(provider, segs, first, last, start_utc=lo_utc, end_utc=hi_utc)
     # (2) RFC interpretation
     bad2 = []
     unpredicted2 = []
@@ -288,7 +300,7 @@ def run_case(case):
         kid = "C13-name-only-transitions" if name_only else "C13-onset-in-new-offset"
         if not unpredicted2:
             # does perfect transition detection (same onset basis) explain it too?  if not, a short observance was stepped over
-            pex = predict_observances(provider, segs, first, last, exact=True)
+            pex = predict_observances(provider, segs, first, last, exact=True, start_utc=lo_utc, end_utc=hi_utc)
             for t, want, got in bad2:
                 pb = Z.in_force(pex, t)
                 if (None if pb is None else (int(pb.offset_to.total_seconds()), pb.tzname)) != got:
